@@ -222,7 +222,10 @@ func (t *decTr) stmt(s ast.Stmt) string {
 		// for { body }: a loop that only a return (or break) ends: `DRange "_" "forever"` — the environment
 		// says how many iterations are looked at
 		if x.Init == nil && x.Cond == nil && x.Post == nil {
-			return "DRange " + q("_") + " " + q("forever") + " " + t.stmts(x.Body.List)
+			t.loopDepth++
+			body := t.stmts(x.Body.List)
+			t.loopDepth--
+			return "DRange " + q("_") + " " + q("forever") + " " + body
 		}
 		// for cond { body }: the forever loop whose first statement leaves it when the condition fails;
 		// for init; cond; post { body }: the init statement, then that loop with the post statement last
